@@ -26,7 +26,7 @@ var DevFindings = map[string]DevFinding{
 	"blank2":        {"C19", "C19:second-blank-import-dropped", "the second blank import of a resolver file is dropped"},
 	"docDirective":  {"C19", "C19:doc-comment-directives-dropped", "directive lines (//nolint:..., //go:...) of a resolver's doc comment are dropped"},
 	"staleFile":     {"C18", "C18:stale-resolver-file-second-run-changes-output", "a resolver file whose schema file lost its last resolver field is left behind; the next run with nothing edited finds the method declared twice and changes the other file"},
-	"rootLeftover":  {"C18", "C18:single-file-root-type-moves-into-warning-block-on-rerun", "single-file layout: the existing `type Resolver struct{}` is not recognised as carried over; a re-run with nothing edited moves it into a WARNING block"},
+	"rootLeftover":  {"C18", "C18:single-file-root-type-moves-into-warning-block-on-rerun", "single-file layout: the existing declaration of the root resolver type is not recognised as carried over; every run repeats it in a WARNING block and emits a fresh `type Resolver struct{}` (a re-run with nothing edited changes the file; a customised root struct moves into the comment - repeated there, not lost)"},
 }
 
 // CurrentDevs lists the deviations whose finding is listed OPEN in
